@@ -56,6 +56,7 @@ def call(fn, *a, **k):
 def sim_classes():
     from rtctools.simulation.csv_mixin import CSVMixin
     from rtctools.simulation.io_mixin import IOMixin
+    from rtctools.simulation.pi_mixin import PIMixin
     from rtctools.simulation.simulation_problem import SimulationProblem
 
     class Plain(SimulationProblem):
@@ -99,7 +100,11 @@ def sim_classes():
     class MemSim(Logged, MemIO, Plain):
         pass
 
-    return Plain, CSVSim, MemSim
+    class PISim(Logged, PIMixin, Plain):
+        timeseries_import_basename = "timeseries_import"
+        timeseries_export_basename = "timeseries_export"
+
+    return Plain, CSVSim, MemSim, PISim
 
 
 def snap(sim, names):
@@ -262,7 +267,7 @@ def affine_ok(spec):
 
 
 def stream_plain(c, spec, tmp, rng, pending, nsteps):
-    Plain, _, _ = sim_classes()
+    Plain = sim_classes()[0]
     G.write_mo(spec, tmp)
     names = G.all_names(spec)
     case = {"stream": "plain", "spec": spec}
@@ -323,19 +328,38 @@ def stream_plain(c, spec, tmp, rng, pending, nsteps):
 
     pending.append((line, cmp_init))
     log = [v0]
+    post = []  # state right after every update() (log entries may be overwritten by a later set_var)
     cur_dt = dt0
     steps_wire = []
     raised_at = None
+    settable = [s_["n"] for s_ in spec["states"]] + [a["n"] for a in spec["aliases"]
+                                                      if a["of"] in [s_["n"] for s_ in spec["states"]]]
     for k in range(nsteps):
         prev = log[-1]
         for u, val in zip(spec["inputs"], useq[k + 1]):
             sim.set_var(u, val)
+        extra_sets = []
+        if rng.random() < 0.3:
+            # BMI-style use: the caller overwrites a state (possibly through an alias) between steps;
+            # the next step must start from exactly that value
+            name = rng.choice(settable)
+            val = G.dy(rng, -3, 3) * nm[name]
+            sim.set_var(name, val)
+            c.hit("plain/set_var-state")
+            got = float(sim.get_var(name))
+            if not abs(got - val) <= 1e-12 * max(1.0, abs(val)):
+                c.fail("get_var(%s) after set_var(%s, v) does not return v" % (name, name), dict(case, step=k),
+                       {"set": val, "got": got, "nominal": nm[name]})
+            prev = snap(sim, names)
+            log[-1] = prev
+            extra_sets.append({"idx": w.idx[name][0], "neg": w.idx[name][1], "v": fr(val)})
         dta = dts[k]
         dt = dta if dta > 0 else cur_dt
         cur_dt = dt
         r = call(sim.update, dta)
         steps_wire.append({"dt": fr(dta), "set": [{"idx": w.idx[u][0], "neg": False, "v": fr(val)}
                                                     for u, val in zip(spec["inputs"], useq[k + 1])]
+                           + extra_sets
                            + [{"idx": w.i_sin, "neg": False, "v": fr(math.sin(prev["time"] + dt))}]})
         if r[0] == "raise":
             raised_at = k
@@ -343,6 +367,7 @@ def stream_plain(c, spec, tmp, rng, pending, nsteps):
             break
         cur = snap(sim, names)
         log.append(cur)
+        post.append(cur)
         for u, val in zip(spec["inputs"], useq[k + 1]):
             if cur[u] != val:
                 c.fail("input %s changed during update()" % u, case, {"set": val, "got": cur[u]})
@@ -368,7 +393,7 @@ def stream_plain(c, spec, tmp, rng, pending, nsteps):
         c.hit("plain/affine-runs")
         line = dict(op="steps", sv=frs(w.sv(v0)), dt=fr(dt0), steps=steps_wire, **w.base())
 
-        def cmp_steps(out, log=log, raised_at=raised_at, case=case, w=w):
+        def cmp_steps(out, post=post, raised_at=raised_at, case=case, w=w):
             if not isinstance(out, list):
                 c.disagree("steps (model output malformed)", case, out, None)
                 return
@@ -380,8 +405,7 @@ def stream_plain(c, spec, tmp, rng, pending, nsteps):
                 if raised_at == k:
                     c.disagree("update(): implementation raised at step %d, model has a unique root" % k, case, "ok", "raise")
                     return
-                impl = w.sv(log[k + 1])
-                sc = w.nom + [1.0] * (len(impl) - len(w.nom))
+                impl = w.sv(post[k])
                 mod = o["sv"]
                 # compare in physical units, relative to the nominal
                 for i, (m, x) in enumerate(zip(mod, impl)):
@@ -410,17 +434,67 @@ def write_csv_inputs(folder, t0, dt, cols):
             f.write(",".join([t.strftime("%Y-%m-%d %H:%M:%S")] + [repr(float(cols[k][j])) for k in names]) + "\n")
 
 
+PI_NS = "http://www.wldelft.nl/fews/PI"
+
+
+def write_pi_inputs(folder, ref, dt, pre, series, ids, pover):
+    """rtcDataConfig.xml, timeseries_import.xml (forecast date = ref, `pre` stamps before it, NaN as
+    missing value), rtcParameterConfig.xml"""
+    os.makedirs(folder, exist_ok=True)
+    with open(os.path.join(folder, "rtcDataConfig.xml"), "w") as f:
+        f.write('<?xml version="1.0" encoding="UTF-8"?>\n<rtcDataConfig xmlns="http://www.wldelft.nl/fews">\n')
+        for n in ids:
+            f.write('<timeSeries id="%s"><PITimeSeries><locationId>Loc</locationId><parameterId>%s</parameterId>'
+                    '</PITimeSeries></timeSeries>\n' % (n, n.upper()))
+        f.write("</rtcDataConfig>\n")
+    n = len(next(iter(series.values())))
+    stamps = [ref + datetime.timedelta(seconds=dt * (j - pre)) for j in range(n)]
+    d = lambda t: 'date="%s" time="%s"' % (t.strftime("%Y-%m-%d"), t.strftime("%H:%M:%S"))  # noqa
+    with open(os.path.join(folder, "timeseries_import.xml"), "w") as f:
+        f.write('<TimeSeries xmlns="%s" version="1.2">\n<timeZone>0.0</timeZone>\n' % PI_NS)
+        for name, vals in series.items():
+            f.write("<series><header><type>instantaneous</type><locationId>Loc</locationId><parameterId>%s</parameterId>"
+                    '<timeStep unit="second" multiplier="%d"/><startDate %s/><endDate %s/><forecastDate %s/>'
+                    "<missVal>-999.0</missVal><units>m</units></header>\n"
+                    % (name.upper(), dt, d(stamps[0]), d(stamps[-1]), d(ref)))
+            for t, v in zip(stamps, vals):
+                f.write('<event %s value="%s" flag="0"/>\n' % (d(t), "-999.0" if math.isnan(v) else repr(float(v))))
+            f.write("</series>\n")
+        f.write("</TimeSeries>\n")
+    with open(os.path.join(folder, "rtcParameterConfig.xml"), "w") as f:
+        f.write('<parameters xmlns="%s" version="1.5">\n<group id="g" name="g" readonly="false">\n' % PI_NS)
+        for k, v in dict(pover, c09_unused=1.0).items():
+            f.write('<parameter id="%s"><dblValue>%s</dblValue></parameter>\n' % (k, repr(float(v))))
+        f.write("</group>\n</parameters>\n")
+
+
+def read_pi_export(path):
+    """{PARAMETERID: [(datetime, value)]} with plain ElementTree"""
+    import xml.etree.ElementTree as ET
+
+    root = ET.parse(path).getroot()
+    out = {}
+    for ser in root.findall("{%s}series" % PI_NS):
+        pid = ser.find("{%s}header/{%s}parameterId" % (PI_NS, PI_NS)).text
+        out[pid] = [(datetime.datetime.strptime(e.get("date") + " " + e.get("time"), "%Y-%m-%d %H:%M:%S"), float(e.get("value")))
+                    for e in ser.findall("{%s}event" % PI_NS)]
+    return out
+
+
 def stream_io(c, spec, tmp, rng, pending, nsteps, variant):
-    _, CSVSim, MemSim = sim_classes()
+    _, CSVSim, MemSim, PISim = sim_classes()
     mdir = os.path.join(tmp, "model")
     idir = os.path.join(tmp, "input_" + spec["name"])
     odir = os.path.join(tmp, "output_" + spec["name"])
     os.makedirs(odir, exist_ok=True)
     G.write_mo(spec, mdir)
     names = G.all_names(spec)
-    dt = rng.choice([1, 1, 2, 3, 5, 60, 3600]) if variant == "csv" else rng.choice([1.0, 0.5, 2.0, 0.25, 3.0])
+    if variant == "mem":
+        dt = rng.choice([1.0, 0.5, 2.0, 0.25, 3.0])
+    else:
+        dt = rng.choice([1, 1, 2, 3, 5, 60, 3600])
     n = nsteps + 1
-    pre = 0 if variant == "csv" else rng.choice([0, 1, 2, 3])  # import stamps before t0
+    pre = 0 if variant == "csv" else rng.choice([0, 1, 2, 3])  # import stamps before t0 (forecast date inside the series)
     times_sec = [dt * (j - pre) for j in range(n + pre)]
     series = {u: [G.dy(rng, -2, 2) for _ in times_sec] for u in spec["inputs"]}
     # parameter overrides from the input files, initial state for non-fixed states
@@ -433,7 +507,7 @@ def stream_io(c, spec, tmp, rng, pending, nsteps, variant):
             #  in SimulationProblem.initialize: only states without a start attribute are given one here)
             if st["mode"] == "free0" and rng.random() < 0.7:
                 istate[st["n"]] = G.dy(rng, -3, 3) * st["nom"]
-    else:
+    if variant != "csv":
         # NaN gaps (after t0): the input keeps its previous value
         for u in spec["inputs"]:
             for j in range(pre + 1, len(times_sec)):
@@ -451,6 +525,10 @@ def stream_io(c, spec, tmp, rng, pending, nsteps, variant):
             with open(os.path.join(idir, "initial_state.csv"), "w") as f:
                 f.write(",".join(istate) + "\n" + ",".join(repr(float(v)) for v in istate.values()) + "\n")
         cls = CSVSim
+    elif variant == "pi":
+        t0 = datetime.datetime(2019, 12, 31, 23, 0, 0)
+        write_pi_inputs(idir, t0, dt, pre, series, list(spec["inputs"]) + list(spec["outputs"]), pover)
+        cls = PISim
     else:
         os.makedirs(idir, exist_ok=True)
         cls = MemSim
@@ -543,6 +621,26 @@ def stream_io(c, spec, tmp, rng, pending, nsteps, variant):
                     if bad:
                         c.fail("io: exported value differs from get_var at the same step", case, {"row": j, "bad": bad})
                         break
+    elif variant == "pi":
+        path = os.path.join(odir, "timeseries_export.xml")
+        try:
+            exp = read_pi_export(path)
+        except Exception as e:
+            exp = None
+            c.fail("io: exported PI file unreadable: %s" % e, case)
+        if exp is not None:
+            for o in spec["outputs"]:
+                ev = exp.get(o.upper())
+                if ev is None:
+                    c.fail("io: output %s missing from the exported PI file" % o, case, sorted(exp))
+                    continue
+                want_t = [t0 + datetime.timedelta(seconds=dt * j) for j in range(n)]
+                if [t for t, _ in ev] != want_t:
+                    c.fail("io: exported PI time stamps of %s are not t0 + j*dt, j = 0..%d" % (o, nsteps), case,
+                           [str(t) for t, _ in ev])
+                elif not all(abs(v - log[j][o]) <= 1e-12 * max(1.0, abs(v)) for j, (_, v) in enumerate(ev)):
+                    c.fail("io: exported PI value of %s differs from get_var at the same step" % o, case,
+                           {"file": [v for _, v in ev], "get_var": [log[j][o] for j in range(n)]})
     elif not getattr(sim, "c09_written", False):
         c.fail("io: write() not called by simulate()", case)
     # ---- model: the IO loop with the exact root finder (affine models)
@@ -600,7 +698,7 @@ def stream_xcheck(c, spec, tmp, rng, nsteps):
     from rtctools.optimization.modelica_mixin import ModelicaMixin
     from rtctools.optimization.timeseries import Timeseries
 
-    Plain, _, _ = sim_classes()
+    Plain = sim_classes()[0]
     G.write_mo(spec, tmp)
     names = G.all_names(spec)
     dt = rng.choice([1.0, 0.5, 0.25, 2.0])
@@ -754,7 +852,7 @@ end U4;
 
 
 def stream_unsolvable(c, tmp, rng, pending):
-    Plain, _, _ = sim_classes()
+    Plain = sim_classes()[0]
     for name, (src, kind) in UNSOLVABLE.items():
         nom = rng.choice([1.0, 10.0, 0.125])
         folder = os.path.join(tmp, "uns_" + name)
@@ -831,7 +929,7 @@ def probe_findings(c, tmp):
            IOMixin.initialize raises KeyError.
        S2: an import series named like a *state* is written into the state vector before every
            step (IOMixin.__set_input_variables loops over all variables, not the inputs)."""
-    _, CSVSim, _ = sim_classes()
+    CSVSim = sim_classes()[1]
     t0 = datetime.datetime(2020, 1, 1)
     out = {}
     # S1
@@ -945,7 +1043,7 @@ def run(c):
     c.prove()
     rng = c.rng
     n_plain = c.n(10, 80)
-    n_io = c.n(10, 80)
+    n_io = c.n(12, 90)
     n_x = c.n(4, 40)
     nsteps = 10
     k = 0
@@ -954,7 +1052,7 @@ def run(c):
         specs_plain.append((G.gen_spec(random.Random(c.subseed()), k, big=c.big), c.subseed()))
         k += 1
     for i in range(n_io):
-        specs_io.append((G.gen_spec(random.Random(c.subseed()), k, big=c.big), c.subseed(), "csv" if i % 2 == 0 else "mem"))
+        specs_io.append((G.gen_spec(random.Random(c.subseed()), k, big=c.big), c.subseed(), ("csv", "mem", "pi")[i % 3]))
         k += 1
     for _ in range(n_x):
         specs_x.append((G.gen_spec(random.Random(c.subseed()), k, exact_init=True, big=c.big), c.subseed()))
